@@ -34,7 +34,8 @@
 //!   each access is attributed to the opcode that was executing) and end to end through
 //!   `Interpreter::transact` (init, input-contract existence checks, run, finalisation).
 //!   Worlds differ in prior balances and coin inputs (so transfers succeed / fail).
-//!   EXECUTION CONTEXTS (each program, both ways, in all three): a fresh interpreter
+//!   EXECUTION CONTEXTS (each program of length <= 3, both ways, in all three; programs
+//!   of length 4 in the fresh one and in one reused one, alternating): a fresh interpreter
 //!   instance; the SAME instance after `Interpreter::transact` of a warm-up transaction
 //!   of the same shape whose contract inputs are A, B *and C* with script `ret 1`; the
 //!   same with a warm-up script that calls C (C's context was active, C's body wrote
@@ -1882,6 +1883,7 @@ struct Acc {
     hist: BTreeMap<String, u64>,
     fps: HashSet<u64>,
     n: u64,
+    runs: u64,
     nontrivial: u64,
     steps: u64,
     accesses: u64,
@@ -1939,6 +1941,12 @@ fn explore_programs(ctx: &Ctx) {
                     acc.n += 1;
                     let mut seen = BTreeSet::new();
                     for c in 0..CONTEXTS.len() {
+                        // length <= 3: every context; length 4 (thorough only): the
+                        // fresh context and one reused context, alternating by index
+                        if seq.len() > 3 && c != 0 && c != 1 + (idx % 2) as usize {
+                            continue
+                        }
+                        acc.runs += 2;
                         let out = run_program(env, c, &ins, false);
                         acc.steps += out.steps;
                         acc.accesses += out.accesses;
@@ -1979,6 +1987,7 @@ fn explore_programs(ctx: &Ctx) {
                 |a| {
                     let t = &mut acc_total;
                     t.n += a.n;
+                    t.runs += a.runs;
                     t.nontrivial += a.nontrivial;
                     t.steps += a.steps;
                     t.accesses += a.accesses;
@@ -2000,7 +2009,7 @@ fn explore_programs(ctx: &Ctx) {
             start += n_len;
             done_len = len as i64;
         }
-        ctx.evals(acc_total.n * 2 * CONTEXTS.len() as u64);
+        ctx.evals(acc_total.runs);
         ctx.fps_merge(acc_total.fps.iter().copied());
         for (k2, v) in &acc_total.hist {
             if k2.starts_with("attempt:CALL:") && !k2.contains(":listed:") {
@@ -2050,7 +2059,8 @@ fn explore_programs(ctx: &Ctx) {
             json!({
                 "programs": acc_total.n,
                 "contexts_per_program": CONTEXTS,
-                "runs": acc_total.n * 2 * CONTEXTS.len() as u64,
+                "context_rule": "length <= 3: all contexts; length 4: fresh + one reused context alternating by program index",
+                "runs": acc_total.runs,
                 "of_total": total,
                 "completed_length": done_len,
                 "nontrivial_programs": acc_total.nontrivial,
@@ -2079,7 +2089,7 @@ fn explore_programs(ctx: &Ctx) {
 
 fn explore(ctx: &Ctx) {
     ctx.rule(
-        "A: for each world all sequences of length <= k over A30, shortest first, each in 3 execution contexts (fresh \
+        "A: for each world all sequences of length <= k over A30, shortest first, each in 3 execution contexts (length 4: fresh + one reused, alternating) (fresh \
          interpreter instance; same instance after a warm-up transaction `ret` with contract inputs A,B,C; same instance \
          after a warm-up transaction that calls C with inputs A,B,C), each run step-wise and through \
          Interpreter::transact over the recording storage; B: 24 contract-state opcodes x 2 positions x {verify, estimate} \
